@@ -165,4 +165,19 @@ META = {
         "trusted_base": ["git tree ids are content addresses (no collisions)", "Index.commit writes the tree of the index entries"],
         "not_decided": ["vdir has no ctag (NotImplementedError) - outside the claim"],
     },
+    "C11": {
+        "explanation": "(D1) dispatch exhaustiveness: for every child element the RFC 4791 s.9.7 grammar allows in filter / comp-filter / "
+                       "prop-filter / param-filter, a branch-sensitive walk of the parser's loop body must reach the builder effect and "
+                       "not the trailing raise; (D2) builder protocol: the class of the builder object is propagated through parse_* and "
+                       "every attribute used on it must exist with a compatible signature; (R1) the s.9.9 tables: each "
+                       "apply_time_range_* function's AST is interpreted over symbolic terms and compared with the encoded table row on "
+                       "ALL weak orderings of the terms and all presence / DATE-vs-DATE-TIME / DURATION-sign combinations (exhaustive, "
+                       "because the functions use their inputs only through comparisons); (R2) reads-set of the time-range path vs the "
+                       "recurrence properties; (M1) text-match operator vs s.9.7.5; (Q1) calendar-data is get_body(). R2 and M1 are "
+                       "violated on the pinned tree (known findings).",
+        "trusted_base": ["the RFC 4791 s.9.7 / s.9.9 tables as encoded in xstatic/rules/c11.py (DESIGN.md Appendix B)",
+                         "tzify is monotone (time-zone conversion preserves order)"],
+        "not_decided": ["TZID / floating / DATE conversion inside tzify", "collation behaviour on arbitrary text", "prop-filter time-range on PERIOD values"],
+        "technique": "static analysis: dispatch walk + abstract interpretation of comparison-only functions over all weak orderings",
+    },
 }
